@@ -251,6 +251,8 @@ class Unit:
         item = X.strip_paths(item, strip, log)
         item = X.normalise_vis(item)
         item = X.assert_eq_rule(item, log)
+        if any(d.kind == 'r7' for d in blk.dirs):
+            item = X.split_or_patterns(item, log)
         for d in blk.dirs:
             if d.kind == 'rw':
                 args = d.arg.split()
@@ -271,12 +273,16 @@ class Unit:
             item, contracted = self._splice_fn(blk, item, out, info, novac)
         else:
             for d in blk.dirs:
-                if d.kind in ('requires', 'ensures', 'loop', 'at', 'ret'):
+                if d.kind in ('requires', 'ensures', 'loop', 'at', 'ret', 'decreases'):
                     raise Maintenance('%s:%d: `%s` on a non-fn item' % (self.path, d.line, d.kind))
             if item:
                 item[0].ws = ''
             if kind in ('struct', 'enum', 'type', 'const', 'static'):
                 item = X.widen_item_vis(item, kind)
+            for d in blk.dirs:
+                if d.kind == 'derive':
+                    # R1 keeps the listed derives (they are in the source; logged)
+                    out.raw('#[derive(%s)]' % ', '.join(d.arg.split()), ('unit', d.line))
             start = out.line
             out.tokens(item)
             out.raw('', ('unit', blk.line))
